@@ -288,6 +288,11 @@ def job(spec):
             from .. import gen3
             g0 = gen3.gen_nullable_tails(rng, actions=False)
             g = mk_grammar({nt.name: [[it.sym for it in a.items] for a in nt.alts] for nt in g0.nts}, g0.terms, {"S"})
+    elif kind == "rules":
+        rules = arg
+        terms = sorted({x for alts in rules.values() for alt in alts for x in alt if x not in rules})
+        sk = {n: [[(T(x) if x in terms else N(x)) for x in alt] for alt in alts] for n, alts in rules.items()}
+        g = mk_grammar(sk, terms, {"S"})
     else:
         rules = arg
         sk = {n: [[(T(x) if x in ("a", "b") else N(x)) for x in alt] for alt in alts] for n, alts in rules.items()}
@@ -324,6 +329,17 @@ def job(spec):
             out[tag] = classify(res)
             if out[tag] not in ("accept", "conflict"):
                 out[tag + "_msg"] = (res["stderr"] + res["stdout"])[-400:]
+            elif out[tag] == "conflict" and tag == "td_lane":
+                # does some reported item carry EVERY terminal + Eof as lookahead (an LR(0) state the
+                # lane table left unresolved)?
+                import re as _re
+                allt = set(gmodel.term_text(t) for t in g.terms) | {"Eof"}
+                full = False
+                for m in _re.finditer(r"\(\*\)[^\[\n]*\[([^\]]*)\]", res["stdout"] + res["stderr"]):
+                    la = set(x.strip() for x in m.group(1).split(","))
+                    if allt <= la:
+                        full = True
+                out["td_lane_unresolved_all_lookahead"] = full
     finally:
         shutil.rmtree(d, ignore_errors=True)
     return {"kind": kind, "text": text, "oracle": orc, "cli": out, "selfcheck": selfcheck, "sugar": any(nt.inline for nt in g.nts) or "*" in text or "?" in text or "+" in text}
@@ -354,6 +370,7 @@ def run(tier, seed):
         specs.append(("lane", base + 3 * 10 ** 6 + i, bin_, wr))
     from .. import probes
     specs.append(("tiny2", probes.F14_RULES, bin_, wr))     # deterministic probe of known finding F14
+    specs.append(("rules", probes.F26_RULES, bin_, wr))     # deterministic probe of known finding F26
     results = core.pmap(job, specs, chunksize=16)
     seen = set()
     for r in results:
@@ -391,8 +408,14 @@ def run(tier, seed):
                      "summary": "%s under %s: oracle lr1_conflict=%s lalr_conflict=%s, lalrpop says %s" % (kind, tag, o["lr1"], o["lalr"], got),
                      "grammar": subject.apply_config(r["text"], tag), "env": subject.config_env(tag),
                      "oracle": o, "cli": r["cli"]}
-                chk.violation(w, lambda k, w_: k.get("id") == "F14" and w_["kind"] == "false_conflict" and w_["config"] == "td_lane"
-                              and w_["cli"].get("td_lr1") == "accept" and bool(w_["oracle"].get("reachable_unproductive")))
+                def m_(k, w_):
+                    base_ = w_["kind"] == "false_conflict" and w_["config"] == "td_lane" and w_["cli"].get("td_lr1") == "accept"
+                    if k.get("id") == "F14":
+                        return base_ and bool(w_["oracle"].get("reachable_unproductive"))
+                    if k.get("id") == "F26":
+                        return base_ and not w_["oracle"].get("reachable_unproductive") and w_["cli"].get("td_lane_unresolved_all_lookahead") is True
+                    return False
+                chk.violation(w, m_)
             if h not in seen:
                 # non-trivial: the three criteria do not all agree trivially (has a nonterminal reference)
                 pass
